@@ -94,6 +94,7 @@ def Ctx.deliverPubC (c : Ctx) (t : Topic) (a : Actor) (m : MsgRow) (marked noEch
   let t := if found ∧ marked then t.setPud a.uid { pud with readId := m.seq, recvId := m.seq } else t
   let c := c.emit a.sid (ctrl 202 tn s!" seq={m.seq}")
   let c := c.fanoutDataC t (if noEcho then a.sid else "") (dataFrame tn a.uid m.seq m.head m.content)
+  let c := c.presSubsOffline t "msg" s!" seq={m.seq}" a.uid "" modeRead 0 { what := "msg" } "" true
   let rcpt := pushRcptC t
   let c := { c with pushes := c.pushes ++ [s!"push what=msg topic={tn} seq={m.seq} to=\{{",".intercalate (rcpt.mergeSort (· ≤ ·))}} chan={tn}"] }
   c.putLive t
@@ -165,13 +166,18 @@ def Ctx.readerSub (c : Ctx) (t : Topic) (a : Actor) (want : String) (priv : Priv
   if !ok then (c.emit a.sid (ctrl 500 tn), t, none) else
   let t := t.setPud a.uid ud
   let changed := oldWant ≠ ud.want ∨ oldGiven ≠ ud.given
-  -- notifySubChange(isChan): the sharers attached to the topic are told; nothing else
+  -- notifySubChange(isChan): the sharers are told, in the topic and (when more is asked than given) on `me`; the reader's other
+  -- sessions on `me`
   let c := if changed then
       let dWant := String.ofList (notifyStr oldWant ud.want)
       let dGiven := String.ofList (notifyStr oldGiven ud.given)
       let acs := if dWant ≠ "" ∨ dGiven ≠ "" then s!" dacs={if dWant.isEmpty then "_" else dWant}/{if dGiven.isEmpty then "_" else dGiven}" else ""
       let c := c.presOnline t { what := "acs", src := a.uid, extra := acs, filterIn := modeCSharer, excludeUser := a.uid, skipSid := a.sid }
-      c.presDirect t { what := "acs", src := "", extra := acs, singleUser := a.uid, skipSid := a.sid }
+      let c := if betterThan ud.want ud.given ∨ oldWant = modeNone then
+          c.presSubsOffline t "acs" acs a.uid a.uid modeCSharer 0 { what := "acs", filterIn := modeCSharer, excludeUser := a.uid } a.sid true
+        else c
+      let c := c.presDirect t { what := "acs", src := "", extra := acs, singleUser := a.uid, skipSid := a.sid }
+      c.presSingleOffline t a.uid (eff ud) "acs" acs a.uid a.uid a.sid true
     else c
   let mc := if newsubFlag ∨ changed then some (ud.want, ud.given) else none
   -- a stored request without J (written by a {set} while not attached) is a self-ban: the reader is not attached
@@ -182,8 +188,8 @@ def Ctx.readerSub (c : Ctx) (t : Topic) (a : Actor) (want : String) (priv : Priv
 
 /-- thisUserSub for a reader who is cached already (another session of the reader is attached, or the reader changes the own mode):
 the same limits as at the first subscription; what changes is written to the reader's row -/
-def Ctx.readerResub (c : Ctx) (t : Topic) (a : Actor) (ud0 : PUD) (want : String) (priv : PrivArg) (newsubFlag : Bool) :
-    Ctx × Topic × Option SubResult :=
+def Ctx.readerResub (c : Ctx) (t : Topic) (a : Actor) (ud0 : PUD) (want : String) (priv : PrivArg) (newsubFlag : Bool)
+    (asChan : Bool := true) : Ctx × Topic × Option SubResult :=
   let tn := t.name
   match (if want = "" then Except.ok modeUnset else (unmarshal modeUnset want.toList)) with
   | .error _ => (c.emit a.sid (ctrl 400 tn), t, none)
@@ -205,6 +211,8 @@ def Ctx.readerResub (c : Ctx) (t : Topic) (a : Actor) (ud0 : PUD) (want : String
         if ud.want ≠ oldWant then { s with want := ud.want } else s)
     else (c, true)
   if !ok then (c.emit a.sid (ctrl 500 tn), t, none) else
+  let c := if !asChan ∧ isPresencer (oldWant &&& oldGiven) ∧ !isPresencer (eff ud) then
+      c.presSingleOffline t a.uid (eff ud) "off+dis" "" "" "" "" false else c
   let t := t.setPud a.uid ud
   let changed := oldWant ≠ ud.want ∨ oldGiven ≠ ud.given
   let c := if changed then
@@ -212,7 +220,16 @@ def Ctx.readerResub (c : Ctx) (t : Topic) (a : Actor) (ud0 : PUD) (want : String
       let dGiven := String.ofList (notifyStr oldGiven ud.given)
       let acs := if dWant ≠ "" ∨ dGiven ≠ "" then s!" dacs={if dWant.isEmpty then "_" else dWant}/{if dGiven.isEmpty then "_" else dGiven}" else ""
       let c := c.presOnline t { what := "acs", src := a.uid, extra := acs, filterIn := modeCSharer, excludeUser := a.uid, skipSid := a.sid }
-      c.presDirect t { what := "acs", src := "", extra := acs, singleUser := a.uid, skipSid := a.sid }
+      let c := if betterThan ud.want ud.given ∨ oldWant = modeNone then
+          c.presSubsOffline t "acs" acs a.uid a.uid modeCSharer 0 { what := "acs", filterIn := modeCSharer, excludeUser := a.uid } a.sid true
+        else c
+      -- under the group name the change counts as one of an ordinary subscription: muting and un-muting are announced
+      let c := if asChan then c
+        else if !isPresencer (eff ud) ∧ isPresencer (oldWant &&& oldGiven) then c.presSingleOfflineOffline a.uid tn "off+dis" "" "" "" ""
+        else if isPresencer (eff ud) ∧ !isPresencer (oldWant &&& oldGiven) then c.presSingleOffline t a.uid (eff ud) "?unkn+en" "" "" "" "" false
+        else c
+      let c := c.presDirect t { what := "acs", src := "", extra := acs, singleUser := a.uid, skipSid := a.sid }
+      c.presSingleOffline t a.uid (eff ud) "acs" acs a.uid a.uid a.sid true
     else c
   let mc := if newsubFlag ∨ changed then some (ud.want, ud.given) else none
   (c, t, some { modeChanged := mc })
@@ -260,7 +277,12 @@ def Ctx.subscriptionReplyReader (c : Ctx) (t : Topic) (a : Actor) (mode : String
           (c, t)
         else (c, t)
       let params := match res.modeChanged with | some (w, g) => s!" acs={acsStr w g}" | none => ""
-      (c.emit a.sid (ctrl 200 tn params), t)
+      let c := c.emit a.sid (ctrl 200 tn params)
+      -- sendImmediateSubNotifications: the reader's other sessions learn of the subscription on `me`
+      let c := match res.modeChanged with
+        | some (w, g) => c.presSingleOffline t a.uid (w &&& g) "acs" s!" dacs={showMode w}/{showMode g}" a.uid "" a.sid false
+        | none => c
+      (c, t)
 
 /-- {sub} to a channel-enabled topic or under the `chn` spelling -/
 def Ctx.opSubC (c : Ctx) (a : Actor) (tn : TName) (viaChn : Bool) (mode : String) (priv : PrivArg) (userGiven : Bool) : Ctx :=
@@ -285,7 +307,7 @@ def Ctx.opSubC (c : Ctx) (a : Actor) (tn : TName) (viaChn : Bool) (mode : String
           -- a user who is attached as a channel reader subscribes under the group name as well: the request is served on the
           -- reader's record, the session is attached as an ordinary one
           if userGiven then c.emit a.sid (ctrl 400 tn) else
-          let (c, t, r) := c.readerResub t a p mode priv false
+          let (c, t, r) := c.readerResub t a p mode priv false false
           match r with
           | none => c.putLive t
           | some res =>
@@ -390,11 +412,15 @@ def Ctx.opNoteC (c : Ctx) (a : Actor) (tn : TName) (viaChn : Bool) (what : Strin
       match stored with
       | (c, false) => c
       | (c, true) =>
+        let c := if read > 0 then c.presSingleOffline t a.uid (eff pud) "read" s!" seq={read}" "" "" a.sid true
+          else if recv > 0 then c.presSingleOffline t a.uid (eff pud) "recv" s!" seq={recv}" "" "" a.sid true
+          else c
         -- a channel reader's note is not relayed; the reader's cached marks follow the stored ones
         if asChan then
           (if pud.isChan ∧ (if read > 0 then read else recv) > 0 then c.putLive (t.setPud a.uid pud') else c)
         else
         let t := if (if read > 0 then read else recv) > 0 then t.setPud a.uid pud' else t
+        let c := c.infoSubsOffline t a.uid what seqArg a.sid
         let c := c.fanoutInfoC t a.sid a.uid what s!"info {tn} from={a.uid} what={what} seq={seqArg}"
         c.putLive t
 
@@ -584,6 +610,7 @@ def Ctx.opSetDescC (c : Ctx) (a : Actor) (tn : TName) (viaChn : Bool) (o : SetDe
     let (c, ok) := c.csubsUpdate tn a.uid (fun s => { s with priv := npriv })
     if !ok then c.emit a.sid (ctrl 500 tn) else
     let t := t.setPud a.uid { t.pud a.uid with priv := npriv }
+    let c := c.presSingleOffline t a.uid (eff (t.pud a.uid)) "upd" "" "" "" a.sid false
     (c.emit a.sid (ctrl 200 tn)).putLive t
 
 /-! ### {del msg}, {del sub} -/
@@ -639,10 +666,12 @@ def Ctx.opDelTopicC (c : Ctx) (a : Actor) (tn : TName) (viaChn : Bool) (hard : B
         match r with
         | none => c.emit a.sid (ctrl 500 tn)
         | some false => c.emit a.sid (ctrl 304 tn)
-        | some true => c.emit a.sid (ctrl 200 tn)
+        | some true =>
+          (c.presSingleOfflineOffline a.uid (if viaChn then "chn:" ++ tn else tn) "gone" "" "" "" a.sid).emit a.sid (ctrl 200 tn)
       else
         let (c, ok) := c.call "TopicDelete" (effDeleteChan tn hard)
         if !ok then c.emit a.sid (ctrl 500 tn) else
+        let c := subs.foldl (fun c s => c.presSingleOfflineOffline s.user (if viaChn then "chn:" ++ tn else tn) "gone" "" "" "" a.sid) c
         let c := { c with pushes := c.pushes ++ [s!"push what=sub topic=chn:{tn} seq=0 to=\{} chan={tn}"] }
         c.emit a.sid (ctrl 200 tn)
   | some t =>
@@ -655,6 +684,7 @@ def Ctx.opDelTopicC (c : Ctx) (a : Actor) (tn : TName) (viaChn : Bool) (hard : B
       if !ok then c.emit a.sid (ctrl 500 tn) else
       let c := c.emit a.sid (ctrl 200 tn)
       let c := if t.isChan then { c with pushes := c.pushes ++ [s!"push what=sub topic=chn:{tn} seq=0 to=\{} chan={tn}"] } else c
+      let c := c.presSubsOffline t "gone" "" "" "" 0 0 { what := "gone" } "" false
       c.terminateTopic t
     else
       if viaChn ∧ !t.isChan then c.emit a.sid (ctrl 404 tn) else
